@@ -120,6 +120,15 @@ func checkC01(t failer, c *codec, m interface{}) {
 	// encode direction
 	lib := c.toLib(m)
 	got, err := lib.MarshalBinary()
+	if mk := viaOptions[c.name]; mk != nil {
+		// the same value made with the constructor and option setters encodes the same
+		got2, err2 := mk(m).MarshalBinary()
+		if (err2 != nil) != (err != nil) || !bytes.Equal(got, got2) {
+			violation(t, "C01", c.name, "C01:"+c.name+":constructor-built-value-encodes-differently", cc,
+				"%s: the value built with New%s(Set...) and the same value as a struct literal encode differently\n options: err=%v %x\n literal: err=%v %x", c.name, c.name, err2, clip(got2), err, clip(got))
+		}
+		ev.Class(c.name + ":also-built-via-options")
+	}
 	if err != nil {
 		// values the encoder refuses are outside the property's domain
 		ev.Class(c.name + ":rejected")
